@@ -46,8 +46,19 @@ def good_value(s, rng, defs, depth=0):
 
 
 def bad_value(s, rng):
-    """a value meant to be rejected: of another type"""
+    """a value meant to be rejected: of another type, or the zero value of the right type where a constraint excludes it"""
     t = s.get("type")
+    if rng.random() < 0.6:
+        if t in ("integer", "number") and (s.get("minimum", 0) > 0 or s.get("exclusiveMinimum")):
+            return 0
+        if t == "string" and s.get("minLength", 0) > 0:
+            return ""
+        if t == "boolean" and s.get("enum") == [True]:
+            return False
+        if t == "array" and s.get("minItems", 0) > 0:
+            return []
+        if t == "object" and s.get("minProperties", 0) > 0:
+            return {}
     if t == "string":
         return 12
     if t in ("integer", "number"):
@@ -105,6 +116,10 @@ def shaped_schema(rng, depth, members=True):
     if not members and r >= 0.68:
         r = rng.random() * 0.68      # the later members of an allOf declare no properties (no duplicate inherited property)
     if depth <= 0 or r < 0.25:
+        if rng.random() < 0.3:      # leaves whose zero value is rejected
+            return dict(rng.choice([{"type": "integer", "minimum": 1}, {"type": "string", "minLength": 1}, {"type": "boolean", "enum": [True]},
+                                    {"type": "number", "minimum": 0, "exclusiveMinimum": True}, {"type": "array", "minItems": 1, "items": {"type": "string"}},
+                                    {"type": "object", "minProperties": 1}]))
         return {"type": rng.choice(["string", "integer", "boolean", "number"])}
     if r < 0.40:
         return {"type": "array", "items": shaped_schema(rng, depth - 1, members)}
